@@ -1162,6 +1162,24 @@ func (a *Act) exec(instr ssa.Instruction) {
 	case *ssa.ChangeType:
 		a.set(x, a.get(x.X))
 	case *ssa.Convert:
+		if sv, ok := a.get(x.X).(StrV); ok && sv.conc {
+			if sl, ok := x.Type().Underlying().(*types.Slice); ok {
+				if b, ok := sl.Elem().Underlying().(*types.Basic); ok && b.Kind() == types.Uint8 {
+					// []byte("constant")
+					arr := ArrayV{e: make([]Value, len(sv.s))}
+					for i := range arr.e {
+						arr.e[i] = BV(8, uint64(sv.s[i]))
+					}
+					n := BV(64, uint64(len(sv.s)))
+					if len(sv.s) == 0 {
+						a.set(x, SliceV{arr: nilPtr(), len: n, cap: n})
+					} else {
+						a.set(x, SliceV{arr: ptrTo(a.alloc(arr)), len: n, cap: n})
+					}
+					break
+				}
+			}
+		}
 		a.set(x, in.convert(a.get(x.X), x.X.Type(), x.Type()))
 	case *ssa.TypeAssert:
 		a.set(x, a.typeAssert(x))
